@@ -141,8 +141,10 @@ def run(idx: Index, rep: Report, tier: str) -> None:
             ok = not missing
             rep.check(ok, rule3, f"{feat} is set for operators {sorted(ops)}", upe.loc(), construct=f"guards: {sorted(have)}", detail="" if ok else f"an expression containing {sorted(missing)} does not set {feat}", function=upe.qualname)
     # the extractor result is what the guards test
-    ops_defs = [a for a in walk_no_nested(upe.node) if isinstance(a, ast.Assign) and norm(a.targets[0]) == "ops"]
-    ok = bool(ops_defs) and all(isinstance(a.value, ast.Call) and call_name(a.value) == "get" and "operators_extractor" in norm(a.value.func.value) and norm(a.value.args[0]) == "exp" for a in ops_defs)
+    tested = {norm(x.comparators[0]) for x in walk_no_nested(upe.node) if isinstance(x, ast.Compare) and isinstance(x.ops[0], ast.In) and isinstance(x.left, ast.Attribute) and norm(x.left.value).endswith("OperatorKind") and isinstance(x.comparators[0], ast.Name)}
+    ops_defs = [a for a in walk_no_nested(upe.node) if isinstance(a, ast.Assign) and norm(a.targets[0]) in tested]
+    ok_all_defined = tested <= {norm(a.targets[0]) for a in ops_defs}
+    ok = bool(ops_defs) and ok_all_defined and all(isinstance(a.value, ast.Call) and call_name(a.value) == "get" and "operators_extractor" in norm(a.value.func.value) and norm(a.value.args[0]) == "exp" for a in ops_defs)
     rep.check(ok, rule3, "guards test the operators of the visited expression", upe.loc(ops_defs[0]) if ops_defs else upe.loc(), construct=norm(ops_defs[0]) if ops_defs else "", function=upe.qualname)
 
     # ---------------------------------------------------------------- (4) sibling agreement with the multi-agent updater
